@@ -34,9 +34,10 @@ EfgFaults(doc) ==
                     /\ PlayersOK(doc.root, doc.players) /\ InfosetsConsistent(doc)
   IN IF ~wellformed THEN {"gambit-error"}
      ELSE IF doc.players # 2 THEN {"players"}
-     ELSE (IF NumberClash(doc) THEN {"duplicate-infosets"} ELSE {})
-          \cup (IF GivenClash(doc) THEN {"duplicate-infosets", "game-error"} ELSE {})
-          \cup (IF ~WithinTolerance(doc) THEN {"constant-sum"} ELSE {})
+     \* a name clash leaves the document without a meaning: the other rules are not evaluated on it
+     ELSE IF NumberClash(doc) THEN {"duplicate-infosets"}
+     ELSE IF GivenClash(doc) THEN {"duplicate-infosets", "game-error"}
+     ELSE (IF ~WithinTolerance(doc) THEN {"constant-sum"} ELSE {})
           \cup (IF ViolatedRules(Conv(doc, doc.root, <<0, 0>>, 0)) # {} THEN {"game-error"} ELSE {})
 
 Categories(parser, class, doc) ==
